@@ -108,13 +108,17 @@ class C14x_effective_prec_sound(Lemma):
 
     def pre(A, v):
         g = GRID()
-        out = {'wf': wf(A), 'rep': bounds_rep(A), 'no_assert': no_assert(A),
+        out = {'wf': wf(A), 'rep': bounds_rep(A),
                'grid': grid_ok_fmt(A, g) and grid_is_exp(A, g) and g <= v._real._exp}
         out.update(mem_nz_clauses(v, A, g, 'mem'))
         return out
 
     def post(A, v):
         g = GRID()
+        if not no_assert(A):
+            # unbounded precision and quantum with two finite bounds: effective_prec() raises its documented
+            # AssertionError (contract C14x_effective_prec#raises); nothing to state
+            return {'asserts': True}
         p = A.effective_prec()
         c = v._real._c
         out = {'spec': eff_spec_ok(A, p)}
